@@ -111,6 +111,15 @@ class History(object):
                 self.install_model(a, rep)
             elif kind == "clear":
                 self.op_clear("prelude")
+            elif kind == "attach":
+                # add_prefix_to_webentity with an id of the caller's choosing (not an id the index issued)
+                (i, k), weid = item[1], item[2]
+                p = self.pool[i].prefix(k)
+                if self.ref.prefixes.has(p.lru):
+                    E.assume(False)
+                E.call("add_prefix_to_webentity", self.t.add_prefix_to_webentity, p.lru, weid, _allowed=())
+                self.ref.name(p)
+                self.ref.prefixes.set(p.lru, weid)
             else:
                 raise ValueError(kind)
 
